@@ -486,6 +486,9 @@ def eval_case(case):
             return eval_linalg(case)
         if kind == 'witness':
             return eval_witness(case)
+        if kind == 'api':
+            from harness import c17_api
+            return c17_api.eval_api(case)
     except Exception:
         return {'case': case, 'fails': [], 'hist': {'harness-error': 1}, 'heap': None, 'file': None, 'loaded': None,
                 'unsupported': [], 'nontrivial': False, 'harness_error': traceback.format_exc()[-1500:]}
